@@ -258,7 +258,7 @@ def write_evidence(pid, tier, seed, ev, out, wall):
         if k in tres:
             cov["t_" + k] = tres[k]
     if mres:
-        cov["engine_m"] = {k: mres[k] for k in ("programs", "obligations", "unsat", "sat", "loud_failures_as_prescribed", "violating_observations", "failing_shapes", "solver_s", "wall_s") if k in mres}
+        cov["engine_m"] = {k: mres[k] for k in ("programs", "obligations", "unsat", "sat", "byte_comparisons", "loud_failures_as_prescribed", "violating_observations", "failing_shapes", "solver_s", "wall_s") if k in mres}
     e = {
         "property_id": pid, "tier": tier, "seed": seed, "level": level,
         "coverage": cov,
